@@ -400,12 +400,12 @@ theorem vis_enumFrom_pull {α} (v : VarId) (l : List α) (s : Nat) (g : α → L
   | nil => rfl
   | cons x l ih => simp [enumFrom, ih]
 
-theorem traceVar_vis (w : World) (v : VarId) (env : Env) (k : Kont) :
-    vis (traceVar w v env k) = (evalVar w v env).flatMap fun r => vis (k r.1 r.2.1 r.2.2) := by
+theorem traceVar_vis (w : World) (cp : Bool) (v : VarId) (env : Env) (k : Kont) :
+    vis (traceVar w cp v env k) = (evalVarAt w cp v env).flatMap fun r => vis (k r.1 r.2.1 r.2.2) := by
   cases h : env.lookup (.var v) with
-  | some x => simp [traceVar, evalVar, h]
+  | some x => simp [traceVar, evalVarAt, h]
   | none =>
-    simp only [traceVar, evalVar, h, List.flatMap_map]
+    simp only [traceVar, evalVarAt, h, List.flatMap_map]
     exact vis_enumFrom_pull v (w.dom v) 0 (fun x => k ((.var v, x) :: env) x true)
 
 theorem traceTerm_vis (w : World) (c : Bool) (t : Term) (env : Env) (k : Kont) (rs : List (Env × Val × Bool))
@@ -415,7 +415,7 @@ theorem traceTerm_vis (w : World) (c : Bool) (t : Term) (env : Env) (k : Kont) (
   | var v =>
     simp only [evalTerm, Except.ok.injEq] at h
     subst h
-    exact traceVar_vis w v env k
+    exact traceVar_vis w c v env k
   | lit id x =>
     simp only [evalTerm] at h
     simp only [traceTerm]
@@ -619,8 +619,8 @@ theorem AllPullOk.readEvent (w : World) (x : Val) (n : AttrName) : AllPullOk w (
   cases x <;> simp only [Eql.readEvent, List.mem_singleton, List.not_mem_nil] at h
   subst h; trivial
 
-theorem traceVar_pullOk (w : World) (v : VarId) (env : Env) (k : Kont)
-    (hk : ∀ e x b, AllPullOk w (k e x b)) : AllPullOk w (traceVar w v env k) := by
+theorem traceVar_pullOk (w : World) (cp : Bool) (v : VarId) (env : Env) (k : Kont)
+    (hk : ∀ e x b, AllPullOk w (k e x b)) : AllPullOk w (traceVar w cp v env k) := by
   unfold traceVar
   split
   · exact hk _ _ _
@@ -635,7 +635,7 @@ theorem traceVar_pullOk (w : World) (v : VarId) (env : Env) (k : Kont)
 theorem traceTerm_pullOk (w : World) (c : Bool) (t : Term) (env : Env) (k : Kont)
     (hk : ∀ e x b, AllPullOk w (k e x b)) : AllPullOk w (traceTerm w c t env k) := by
   induction t generalizing c env k with
-  | var v => exact traceVar_pullOk w v env k hk
+  | var v => exact traceVar_pullOk w c v env k hk
   | lit id x => simp only [traceTerm]; split <;> exact hk _ _ _
   | attr t n ih =>
     simp only [traceTerm]
@@ -745,10 +745,10 @@ theorem not_Bnd_nil (x : VarId) : ¬ Bnd x [] := by simp [Bnd]
 
 /-! ### bound variables stay bound -/
 
-theorem evalVar_bnd (w : World) (x v : VarId) (env : Env) (h : Bnd x env ∨ v = x) :
-    ∀ r ∈ evalVar w v env, Bnd x r.1 := by
+theorem evalVar_bnd (w : World) (cp : Bool) (x v : VarId) (env : Env) (h : Bnd x env ∨ v = x) :
+    ∀ r ∈ evalVarAt w cp v env, Bnd x r.1 := by
   intro r hr
-  unfold evalVar at hr
+  unfold evalVarAt at hr
   split at hr
   · rename_i y hy
     simp only [List.mem_singleton] at hr
@@ -766,7 +766,7 @@ theorem evalTerm_bnd (w : World) (x : VarId) (c : Bool) (t : Term) (env : Env) (
   | var v =>
     simp only [evalTerm, Except.ok.injEq] at h
     subst h
-    refine evalVar_bnd w x v env (hx.imp id ?_)
+    refine evalVar_bnd w c x v env (hx.imp id ?_)
     intro h; simpa [Term.root] using h
   | lit id y =>
     have hb : Bnd x env := hx.resolve_right (by simp [Term.root])
@@ -891,9 +891,9 @@ theorem eval_bnd (w : World) (x : VarId) (e : Expr) (hq : e.QF = true) (env : En
 
 /-! ### a bound variable's domain is never consulted -/
 
-theorem evalVar_indep (w : World) (x : VarId) (d1 d2 : List Val) (v : VarId) (env : Env) (hb : Bnd x env) :
-    evalVar (w.setDom x d1) v env = evalVar (w.setDom x d2) v env := by
-  unfold evalVar
+theorem evalVar_indep (w : World) (cp : Bool) (x : VarId) (d1 d2 : List Val) (v : VarId) (env : Env) (hb : Bnd x env) :
+    evalVarAt (w.setDom x d1) cp v env = evalVarAt (w.setDom x d2) cp v env := by
+  unfold evalVarAt
   by_cases hv : v = x
   · subst hv
     unfold Bnd at hb
@@ -905,7 +905,7 @@ theorem evalVar_indep (w : World) (x : VarId) (d1 d2 : List Val) (v : VarId) (en
 theorem evalTerm_indep (w : World) (x : VarId) (d1 d2 : List Val) (c : Bool) (t : Term) (env : Env)
     (hb : Bnd x env) : evalTerm (w.setDom x d1) c t env = evalTerm (w.setDom x d2) c t env := by
   induction t generalizing c env with
-  | var v => simp only [evalTerm, evalVar_indep w x d1 d2 v env hb]
+  | var v => simp only [evalTerm, evalVar_indep w c x d1 d2 v env hb]
   | lit id y => rfl
   | attr t n ih => simp only [evalTerm, ih _ _ hb, getAttr_setDom]
   | index t i ih => simp only [evalTerm, ih _ _ hb]
@@ -1037,7 +1037,7 @@ theorem evalTerm_splits (w : World) (x : VarId) (d s : List Val) (c : Bool) (t :
       | none => rfl
       | some y => exact absurd (by simp [Bnd, hl]) hb
     intro r
-    simp only [evalTerm, evalVar, hl, setDom_dom_self, List.map_append, Except.ok.injEq]
+    simp only [evalTerm, evalVarAt, hl, setDom_dom_self, List.map_append, Except.ok.injEq]
     constructor
     · rintro rfl; exact ⟨_, _, rfl, rfl, rfl⟩
     · rintro ⟨_, _, rfl, rfl, rfl⟩; rfl
